@@ -1,0 +1,30 @@
+//go:build verif
+
+// Contracts for package errortypes, checked by /verif/govc (comment-only).
+package errortypes
+
+// C19: an ErrFilePos built from (file, line, col) reports exactly those.
+//@ func NewErrFilePosf
+//@   props C19 C06
+//@   pure
+//@   ensures[carries-file-line-col] result != nil && typeis(result, *errFilePos) && unbox(result, *errFilePos).file == file && unbox(result, *errFilePos).line == line && unbox(result, *errFilePos).col == col
+//@ func (*errFilePos).File
+//@   props C19
+//@   pure
+//@   ensures result == e.file
+//@ func (*errFilePos).Line
+//@   props C19
+//@   pure
+//@   ensures result == e.line
+//@ func (*errFilePos).Col
+//@   props C19
+//@   pure
+//@   ensures result == e.col
+//@ func IsErrFilePos
+//@   props C19
+//@   pure
+//@   ensures result == (err != nil && implements(err, ErrFilePos))
+//@ func ToErrFilePos
+//@   props C19
+//@   pure
+//@   ensures (result != nil) == (err != nil && implements(err, ErrFilePos))
